@@ -20,7 +20,9 @@ N == Len(TraceLog)
 \* where the verdict of `matches` differs from the documented semantics it is tolerated (D40) only if it is EXACTLY what the model
 \* of the engine as built (ReVM.tla) computes; a verdict that agrees with the semantics is always accepted, so a repair of D40
 \* in the library is not an alarm. (ReVMMC: the model and the semantics agree on every expression without the D40 signature.)
-MatchesAsBuilt(c) == ("vm" \in DOMAIN c /\ c.vm /\ Supported(c.ast)) => c.obs = Matches(c.ast, c.buf, [nocase |-> c.nocase, dotall |-> c.dotall, wide |-> FALSE])
+\* (expressions with the D47 signature are left out: the engine as built - and therefore its model - does not terminate on them,
+\* the library answers with an error, never with a verdict)
+MatchesAsBuilt(c) == ("vm" \in DOMAIN c /\ c.vm /\ Supported(c.ast) /\ ~HasNullableCountedUnbounded(c.ast)) => c.obs = Matches(c.ast, c.buf, [nocase |-> c.nocase, dotall |-> c.dotall, wide |-> FALSE])
 
 \* ---- chained strings (hook H7): c.chain = the recorded runs of the chain confirmation algorithm (Chain.tla), one per chain
 \* piece p of the expression: the elements of the top-level concatenation between the chaining jumps
